@@ -850,7 +850,9 @@ class Images(productmd.common.MetadataBase):
             if not section.startswith("images-"):
                 continue
             platform = section[7:]
-            if platform != self._metadata.tree.arch and platform.endswith("-%s" % self._metadata.tree.arch):
+            # legacy spelling images-<platform>-<arch>; a platform the tree lists under that very name is kept as it is
+            if platform != self._metadata.tree.arch and platform.endswith("-%s" % self._metadata.tree.arch) \
+                    and platform not in self._metadata.tree.platforms:
                 platform = platform[:-len(self._metadata.tree.arch)-1]
             self.images[platform] = {}
             for image, path in parser.items(section):
